@@ -9,7 +9,7 @@ in the subset, e.g. `chr_byte`).
 """
 import ast
 import itertools
-_ITERTOOLS_PURE = ("chain", "accumulate", "islice", "zip_longest", "product", "takewhile", "dropwhile", "starmap", "pairwise")
+_ITERTOOLS_PURE = ("chain", "accumulate", "islice", "zip_longest", "product", "takewhile", "dropwhile", "starmap", "pairwise", "groupby")
 
 from .report import AnalysisError
 
@@ -93,6 +93,10 @@ class ModRef:
 
     def __repr__(self):
         return "<module curtsies.%s>" % self.name
+
+
+_TAKES_CALLABLE = (sorted, min, max, map, filter, itertools.groupby, itertools.takewhile, itertools.dropwhile, itertools.starmap,
+                   itertools.accumulate)
 
 
 class Lam:
@@ -534,6 +538,23 @@ class Folder:
             if any(nm not in e2 for nm in names):
                 raise Unknown("missing argument")
             return self.expr(body, e2)
+        if f in _TAKES_CALLABLE and any(isinstance(a, Lam) for a in list(args) + list(kw.values())):
+            # a lambda of the analysed code handed to a pure library function: the library calls back into the evaluator
+            def wrap(a):
+                if isinstance(a, Lam):
+                    return lambda *xs: self.v_call(a, list(xs), {}, node, env)
+                return a
+            args = [wrap(a) for a in args]
+            kw = {k2: wrap(v2) for k2, v2 in kw.items()}
+            for a in list(args) + list(kw.values()):
+                if isinstance(a, (Opaque, Partial, ModRef, Record)) or a is TOP:
+                    raise Unknown("opaque argument")
+            r = f(*args, **kw)
+            if f is itertools.groupby:
+                r = [(k2, list(g)) for k2, g in r]
+            elif f in (map, filter, itertools.takewhile, itertools.dropwhile, itertools.starmap, itertools.accumulate):
+                r = list(r)
+            return r
         for a in list(args) + list(kw.values()):
             if isinstance(a, (Opaque, Lam, Partial, ModRef, Record)) or a is TOP:
                 raise Unknown("opaque argument")
